@@ -162,23 +162,29 @@ def exc_name(exc):
 
 def impl_split(text):
     from MIP.mip import surfacecard
+    from props import c02
     try:
-        return tuple(surfacecard.split(text))
+        with c02.traced():
+            return tuple(surfacecard.split(text))
     except AttributeError:
         return None
 
 
 def impl_to_float(token):
     from MIP.mip.datacard import to_float
+    from props import c02
     try:
-        return float(to_float(token))
+        with c02.traced():
+            return float(to_float(token))
     except ValueError:
         return None
 
 
 def impl_content(lines):
     from MIP.mip.main import Card
-    return Card(lines=list(lines), position=0, type='s').content()
+    from props import c02
+    with c02.traced():
+        return Card(lines=list(lines), position=0, type='s').content()
 
 
 def impl_parse(text):
@@ -240,7 +246,7 @@ def run_ties(res, rng, quick):
     from props import c02
     header = c02.HEADER.replace('C02.Exec.', 'C02.Text C02.Exec.') \
         + 'From Coq Require Import String.\n'
-    n_text = 500 if quick else 5000
+    n_text = 400 if quick else 5000
 
     # ---- content() ----
     cases = []
